@@ -118,6 +118,18 @@ func (s sortedResources) Less(i, j int) bool {
 		v := s.col[i].Get(r)
 		v2 := s.col[j].Get(r)
 
+		// Some resources (like Wrapper) return a nil interface instead
+		// of a nil pointer for a nullable attribute.
+		if attr, ok := s.col[i].Attrs()[r]; ok && attr.Nullable {
+			if v == nil {
+				v = GetZeroValue(attr.Type, attr.Nullable)
+			}
+
+			if v2 == nil {
+				v2 = GetZeroValue(attr.Type, attr.Nullable)
+			}
+		}
+
 		// Here we return true if v < v2.
 		// The "!= inverse" part acts as a XOR operation so that
 		// the opposite boolean is returned when inverse sorting
